@@ -627,6 +627,30 @@ def check(tier: str, seed: int, t0: float, build: core.BuildStatus) -> int:
             else:
                 oc.traces_validated_against_impl += 1
     oc.extra["multi_constant_queries"] = multi_n
+    # several STRING constants at the same kind of position in one query (the same collection read from different banks, the
+    # same attribute method with different names): every constant reaches the generated code, each at its own place
+    two_n = 0
+    for b in BACKENDS:
+        c, bank0, _ = COLL[b]
+        for s1, s2 in [("bankAlpha", "bankBeta"), (bank0, bank0 + "Up"), ("x", "x ")]:
+            src = (f'ds.Select(lambda e: (e.{c}({s1!r}), e.{c}({s2!r}))).Select(lambda p: '
+                   f'{{"n1": p[0].Count(), "n2": p[1].Count(), "n3": p[0].Select(lambda j: j.pt())}})')
+            r = impl.translate(b, impl.query_ast(src, None))
+            impl.reset_globals()
+            oc.evaluations += 1
+            two_n += 1
+            if r[0] != "ok":
+                oc.violations.append(core.Violation(key="c18:name:two-banks-refused", what=f"{b}: {src} refused: {r[1:]}", replay={"kind": "twobanks", "backend": b, "query": src}))
+                continue
+            text = "".join(f["text"] for f in r[1]["files"].values())
+            missing = [s_ for s_ in (s1, s2) if not any((pre + '"' + s_ + '"') in text for pre, _ in markers(b, "bank", None))]
+            if missing:
+                oc.violations.append(core.Violation(
+                    key="c18:name:bank-lost", what=f"{b}: the bank name(s) {missing} of {src} do not reach the generated code as the argument of a retrieval",
+                    replay={"kind": "twobanks", "backend": b, "query": src, "missing": missing}))
+            else:
+                oc.traces_validated_against_impl += 1
+    oc.extra["two_bank_queries"] = two_n
     oc.distinct_nontrivial = len(distinct)
     oc.rule = (f"corpus ({n_corpus}) + exhaustive part ({len(exh)}: strings of length <= 2 over {EXH_ALPHABET!r} at bank/arg/tree/column/attribute positions, "
                f"{len(INT_EDGES)} integer and {len(FLOAT_EDGES)} float boundary values, booleans, non-literal constants, x 3 back ends) + {n_random} random (45% expression positions: "
